@@ -1005,6 +1005,18 @@ static void deepskip_eval(uint64_t idx, void *ctx) {
     aws_cbor_encoder_destroy(enc);
 }
 
+/* the sections in which the encoder's buffer grows, once more with an allocator that has no realloc of its own */
+static void fill_min_eval(uint64_t idx, void *ctx) {
+    A = bee_min_allocator();
+    fill_eval(idx, ctx);
+    A = aws_default_allocator();
+}
+static void strings_min_eval(uint64_t idx, void *ctx) {
+    A = bee_min_allocator();
+    strings_eval(idx, ctx);
+    A = aws_default_allocator();
+}
+
 int main(int argc, char **argv) {
     v_init(argc, argv);
     for (int i = 1; i < argc; ++i)
@@ -1022,6 +1034,8 @@ int main(int argc, char **argv) {
     bee_register("simple", simple_total, simple_eval, 10);
     bee_register("seq", seq_total, seq_eval, 10);
     bee_register("fill", fill_total, fill_eval, 10);
+    bee_register("fill-minalloc", fill_total, fill_min_eval, 10);
+    bee_register("strings-minalloc", strings_total, strings_min_eval, 20);
     bee_register("nest", nest_total, nest_eval, 10);
     bee_register("deepskip", deepskip_total, deepskip_eval, 60);
     return bee_main(argc, argv);
